@@ -90,12 +90,23 @@ def run(tier, replay=None):
             meta.append(dict(method=e["method"], pc=e["id"], expect=exp, reqid=e["reqid"], isreq=e["isreq"], errmsg="", iserr=False, body=e["body"]))
         jobs.append((kind, items, "rich"))
         metas.append(meta)
+        # the same list requests on a server with nothing registered: empty lists are arrays, not null
+        items2, meta2 = [], []
+        for n, (m, pc, idk, expect) in enumerate(classes):
+            if not (m.endswith("/list") and pc == "ok" and idk == "int"):
+                continue
+            idv = 900 + n
+            body, errmsg, iserr = rc.body_for(m, pc, idv)
+            items2.append({"id": "e%d" % n, "body": body, "sse": kind == "sse", "expect_answer": True})
+            meta2.append(dict(method=m, pc="empty-registry", expect=sorted(set(expect) | {"rpc:-32601"}), reqid=idv, isreq=True, errmsg=errmsg, iserr=iserr, body=body))
+        jobs.append((kind, items2, "empty"))
+        metas.append(meta2)
     outs = rc.run_probes(jobs)
     batches = {}
     info = {}
-    for (kind, items, _), meta, out in zip(jobs, metas, outs):
+    for (kind, items, regset), meta, out in zip(jobs, metas, outs):
         if "_crash" in out:
-            run_.diverge("kind=%s process-crash" % kind, "the server process crashed: %s" % out["_crash"][:1500], {"cmd": ["rpcprobe"], "input": {"kind": kind, "set": "rich", "items": items}})
+            run_.diverge("kind=%s process-crash" % kind, "the server process crashed: %s" % out["_crash"][:1500], {"cmd": ["rpcprobe"], "input": {"kind": kind, "set": regset, "items": items}})
             continue
         for it, mt, obs in zip(items, meta, out["obs"]):
             run_.evaluations += 1
@@ -105,17 +116,17 @@ def run(tier, replay=None):
             ev = rc.event_for(kind, mt["method"], expect, mt["reqid"], mt["isreq"], obs, mt["errmsg"], mt["iserr"])
             tid = "%s|%s|%s|%s" % (kind, mt["method"], mt["pc"], it["id"])
             batches.setdefault((kind,), []).append((tid, [ev]))
-            info[tid] = (kind, mt, obs, it)
+            info[tid] = (kind, mt, obs, it, regset)
             run_.nontriv([kind, mt["method"], mt["pc"], type(mt["reqid"]).__name__])
             if len(run_.samples) < 3 and mt["pc"] in ("h:error", "keyNumber", "env-dup-id"):
                 run_.sample({"kind": kind, "request": mt["body"], "expected_reactions": expect, "status": obs["status"], "frames": obs["frames"][:2]})
     for key in sorted(batches):
         rej = tracebatch.validate(run_, "TraceWellFormed", "TraceWellFormed.cfg", batches[key], max_rejections=8)
         for tid, (pos, line) in rej.items():
-            kind, mt, obs, it = info[tid]
+            kind, mt, obs, it, regset = info[tid]
             run_.diverge("kind=%s method=%s class=%s got=%s" % (kind, mt["method"], mt["pc"], rc.summarise(obs).split(" result=")[0][:60]),
                          "request %s on %s: admitted reactions %s, observed %s" % (mt["body"][:200], kind, mt["expect"], rc.summarise(obs)),
-                         {"cmd": ["rpcprobe"], "input": {"kind": kind, "set": "rich", "items": [it]}, "expected": mt["expect"], "observed": obs, "spec": "Core / MsgGrammar / TraceWellFormed"})
+                         {"cmd": ["rpcprobe"], "input": {"kind": kind, "set": regset, "items": [it]}, "expected": mt["expect"], "observed": obs, "spec": "Core / MsgGrammar / TraceWellFormed"})
     run_.states, run_.transitions = run_.states + core.distinct, run_.transitions + core.generated
     run_.extra["tlc_states"] = run_.states
     run_.extra["traces_validated_against_impl"] = run_.traces
